@@ -12,17 +12,26 @@ from ..steplib import Inst, micro_summary
 
 ID = 'C02'
 ALL = [cg.BASIC, cg.COMPOUND, cg.ORTH, cg.FINAL, cg.SH, cg.DH]
+B, C, O = cg.BASIC, cg.COMPOUND, cg.ORTH
+TEMPLATES = {
+    # root{idle, work||{wa||{a1,a2}, wb{b1{b11}}}}: nested orthogonal states, one region deeper than the other
+    'TN1': {'N': 9, 'par': [-1, 0, 0, 2, 3, 3, 2, 6, 7], 'kind': [C, B, O, O, B, B, C, C, B]},
+    # root||{p||{p1{x,y}, p2}, q{q1, q2}}: orthogonal root with a nested orthogonal region
+    'TN2': {'N': 9, 'par': [-1, 0, 1, 2, 2, 1, 0, 6, 6], 'kind': [O, O, C, B, B, B, C, B, B]},
+}
 LEVELS = {
     'quick': [
         {'name': 'L1-N3-M2-K2', 'N': 3, 'M': 2, 'K': 2, 'namings': ['id'], 'budget_s': 60},
         {'name': 'L2-N4-M1-K2', 'N': 4, 'M': 1, 'K': 2, 'namings': ['id'], 'budget_s': 60},
         {'name': 'L3-N4-M2-K1', 'N': 4, 'M': 2, 'K': 1, 'namings': ['rev'], 'budget_s': 120},
+        {'name': 'L4-TN-M1-K2', 'templates': ['TN1', 'TN2'], 'M': 1, 'K': 2, 'namings': ['id', 'rev'], 'budget_s': 40},
     ],
     'thorough': [
         {'name': 'L1-N3-M3-K3', 'N': 3, 'M': 3, 'K': 3, 'namings': ['id', 'rev'], 'budget_s': 300},
         {'name': 'L2-N4-M2-K2', 'N': 4, 'M': 2, 'K': 2, 'namings': ['id', 'rev'], 'budget_s': 900},
         {'name': 'L3-N5-M1-K2', 'N': 5, 'M': 1, 'K': 2, 'namings': ['mix'], 'budget_s': 900},
         {'name': 'L4-N5-M2-K1', 'N': 5, 'M': 2, 'K': 1, 'namings': ['id'], 'budget_s': 1500},
+        {'name': 'L5-TN-M2-K2', 'templates': ['TN1', 'TN2'], 'M': 2, 'K': 2, 'namings': ['id', 'rev', 'mix'], 'budget_s': 900},
     ],
 }
 WITNESSES = ['final_reached', 'history_entered', 'into_orthogonal_region', 'orthogonal_active',
@@ -35,6 +44,11 @@ OUTSIDE = ['charts above the N/M/K bound of the completed level', 'clock moves (
 
 
 def shards(level):
+    if 'templates' in level:
+        out = []
+        for name in level['templates']:
+            out.extend(dict(sh, template=name) for sh in cg.split_shards([dict(TEMPLATES[name])], level['M']))
+        return out
     sk = cg.skeletons(level['N'], ALL)
     return cg.split_shards(sk, level['M'])
 
